@@ -142,6 +142,7 @@ func main() {
 		"Select.lean":  genSelect,
 		"Preds.lean":   genPreds,
 		"Sites.lean":   genSites,
+		"Atomic.lean":  genAtomic,
 	}
 	names := make([]string, 0, len(gens))
 	for n := range gens {
